@@ -136,6 +136,10 @@ def _normalise_checksum_pair(stmts: List[ast.stmt]) -> List[ast.stmt]:
         if isinstance(s, ast.If) and isinstance(s.test, ast.Compare) and try_fold(s.test.comparators[0]) in (b"\x00\x00", 0) and not s.orelse \
                 and all(isinstance(b, ast.Assign) for b in s.body):
             continue
+        # second named exception: "IPv4 UDP checksum field 0 = no checksum" (RFC 768), UDP only; rule UDPZ checks its exact shape
+        if isinstance(s, ast.If) and not s.orelse and len(s.body) == 1 and isinstance(s.body[0], ast.Return) and try_fold(s.body[0].value) is True \
+                and "ipv6_packet" in src(s.test, 200) and any(try_fold(c) in (b"\x00\x00", 0) for c in ast.walk(s.test) if isinstance(c, (ast.Constant, ast.Call))):
+            continue
         out.append(T().visit(clone(s)))
     return out
 
